@@ -47,6 +47,13 @@ theorem kill_at_boundary (s : State) (h : s.dead = false) :
   unfold commit
   simp [h]
 
+/-- **The premise of `kill_at_boundary`, probed on the live code** on every check: a scheduler killed inside a batch
+of queued operations (after 1, 2, ... statements, whatever the DAO's connection settings) leaves the database file
+exactly as it was before the batch - the batch is one sqlite transaction.  (`CrashFlags.batchAtomic` is written by
+the check from reading the real database file after injected deaths; if a batch is ever found half-written this
+theorem no longer builds and the judge `judgeAtomic` supplies the failing run.) -/
+theorem batch_atomic_live : CrashFlags.batchAtomic = true := by decide
+
 /-- **A dead process commits nothing**: whatever the rest of the main loop would have done, the database stays as
 it was at the death (so the model may let the loop run on: only the database is read afterwards). -/
 theorem dead_commits_nothing (g : Graph) (s : State) (h : s.dead = true) :
